@@ -299,6 +299,9 @@ fn run(ctx: &mut Ctx) {
             }
         }
     }
+    let total_wide = ctx.tier.pick(120_000, 2_000_000);
+    let strat_wide = move || wide_short_strategy(|c: Cfg| c, true);
+    ctx.generated("wide-short", &strat_wide, total_wide, &|s, c, st| case_fn(s, c, st));
     let total_large = ctx.tier.pick(8000, 150000);
     let strat_large = move || case_strategy_large(ALL_POOLS, W_DEFAULT, |c: Cfg| c);
     ctx.generated("gen-large", &strat_large, total_large, &|s, c, st| {
